@@ -1049,7 +1049,12 @@ class _ProtocolGraphWalker:
         Raises:
           UnexpectedCommandError: If an error occurred reading the line.
         """
-        return _split_proto_line(self.proto.read_pkt_line(), allowed)
+        line = self.proto.read_pkt_line()
+        if line is not None and not line:
+            # the frame 0004: an empty packet, which is not the flush-pkt
+            # (None) that _split_proto_line would take it for
+            raise GitProtocolError("Received an empty packet from the client")
+        return _split_proto_line(line, allowed)
 
     def _handle_shallow_request(self, wants: Sequence[ObjectID]) -> None:
         """Handle shallow clone requests from the client.
@@ -1776,8 +1781,9 @@ class ReceivePackHandler(PackHandler):
         ref_line, caps = extract_capabilities(ref_line)
         self.set_client_capabilities(caps)
 
-        # client will now send us a list of (oldsha, newsha, ref)
-        while ref_line:
+        # client will now send us a list of (oldsha, newsha, ref), ended by a
+        # flush-pkt (None); an empty packet (b"") is not one
+        while ref_line is not None:
             try:
                 (oldsha, newsha, ref_name) = ref_line.rstrip(b"\n").split(b" ")
             except ValueError:
